@@ -1,6 +1,6 @@
 (* Property C04 — ALTER TABLE / CREATE INDEX change exactly the table they name, as declared. *)
 From Coq Require Import String Ascii List ZArith NArith Bool.
-From SDP Require Import Base PyStr Actions Output OutputProofs.
+From SDP Require Import Base PyStr Lexer Actions Parse Engine Seq Entity Output OutputProofs Table Alter AlterProofs AlterKeyProofs.
 Import ListNotations.
 Open Scope string_scope.
 
@@ -83,3 +83,30 @@ Example C04_example :
   | _ => false
   end = true.
 Proof. vm_compute. reflexivity. Qed.
+
+(* ---------- the grammar side: the statement entity of every ALTER TABLE of the fragment (Spec/Alter.v) ------------------------
+   ALTER TABLE [schema.]name  DROP COLUMN c | RENAME COLUMN a TO b | ADD c type | MODIFY [COLUMN] c type [(n)] | ALTER COLUMN c type [(n)]
+     | ADD [CONSTRAINT n] UNIQUE (c {, c}) | ADD [CONSTRAINT n] PRIMARY KEY (c {, c})
+     | ADD [CONSTRAINT n] FOREIGN KEY (c {, c}) REFERENCES [schema.]table (c {, c}) [ON DELETE a] [ON UPDATE a]
+   — column lists of ANY length, keywords in any letter case, both normalize_names settings, silent or not — is parsed by the
+   model (real keyword tables + flag logic, real LALR tables, modelled actions) into exactly [Alter.denote]: the named table and
+   schema, and the declared effect with its exact column list(s), constraint name and referenced table / columns / actions.
+   Together with the theorems above (which are about what Output.format does with such an entity) this covers both halves. *)
+Theorem C04_alter_statement_exact : forall a norm silent, Alter.wf norm a = true ->
+  parse_lexemes norm silent (Alter.lexemes a) = Ok (Some (Alter.denote norm a)).
+Proof. exact alter_parse. Qed.
+Print Assumptions C04_alter_statement_exact.
+
+(* non-vacuity: a script CREATE TABLE; ALTER ... ADD CONSTRAINT FOREIGN KEY; ALTER ... DROP COLUMN through the whole model *)
+Definition ex_fk : alter :=
+  mkAlter "alter" "TABLE" (Some "shop") "orders"
+    (BFk "add" (Some ("CONSTRAINT", "fk_cust")) "foreign" "KEY" ("customer", ["region"])
+         (mkFk "references" (Some "crm") "customers" ("id", ["region_id"]) (Some ("ON", "delete", "cascade")) (Some ("on", "UPDATE", "restrict")))).
+Definition ex_fk_text : string :=
+  "alter TABLE shop.orders add CONSTRAINT fk_cust foreign KEY ( customer , region ) references crm.customers ( id , region_id ) ON delete cascade on UPDATE restrict ".
+Example C04_alter_example :
+  Alter.wf false ex_fk = true /\ Alter.wf true ex_fk = true /\
+  scan ex_fk_text = Ok (Alter.lexemes ex_fk) /\
+  parse_statement false false ex_fk_text = Ok (Some (Alter.denote false ex_fk)) /\
+  Alter.wf false (mkAlter "ALTER" "table" None "t" (BKey "ADD" None (KPrimary "primary" "key") ("a", ["b"; "c"]))) = true.
+Proof. vm_compute. repeat split. Qed.
